@@ -16,6 +16,6 @@ echo "== demo with patch:"; go test -vet=off -count=1 -run "$rx" "./$pkg" 2>&1 |
 rm -f "$dst"
 for id in "$@"; do
   echo "== check $id against the change:"
-  (cd /verif && VERIF_REPO="$wt" ./vcheck "$id" 2>&1 | grep -E "VIOLATION|KNOWN|INCONCLUSIVE|\] (quick|thorough) tier" | head -4)
+  (cd "$(dirname "$0")/.." && VERIF_REPO="$wt" ./vcheck "$id" 2>&1 | grep -E "VIOLATION|KNOWN|INCONCLUSIVE|\] (quick|thorough) tier" | head -4)
 done
 cd "$wt" && git checkout -q -- . && git clean -fdq
